@@ -8,7 +8,11 @@ import (
 	"errors"
 	"fmt"
 	"os"
+	"runtime"
+	"strconv"
 	"strings"
+	"sync"
+	"sync/atomic"
 
 	"github.com/drand/drand/v2/common"
 	"github.com/drand/drand/v2/crypto"
@@ -139,6 +143,70 @@ func chainEngine(args []string, in *bufio.Scanner, out *bufio.Writer) {
 				}
 				c.build()
 				return "ok"
+			case "race": // race <n> <workers>: goroutines race to append the same n next beacons through the real stack
+				n, _ := strconv.Atoi(f[1])
+				w, _ := strconv.Atoi(f[2])
+				last, err := c.top.Last(c.ctx)
+				if err != nil {
+					return "err:" + err.Error()
+				}
+				// the beacons every writer tries to append (identical values, as aggregation and sync would produce)
+				bs := make([]*common.Beacon, n)
+				prev := last.Signature
+				for i := 0; i < n; i++ {
+					r := last.Round + 1 + uint64(i)
+					sig := []byte{byte(r * 7), byte(r), 0x5a}
+					p := prev
+					if !c.chained {
+						p = nil
+					}
+					bs[i] = &common.Beacon{Round: r, Signature: sig, PreviousSig: p}
+					prev = sig
+				}
+				var wg sync.WaitGroup
+				oks := make([]int32, n)
+				var bad int32
+				for k := 0; k < w; k++ {
+					wg.Add(1)
+					go func() {
+						defer wg.Done()
+						for i := 0; i < n; i++ {
+							for tries := 0; ; tries++ {
+								b := *bs[i]
+								err := c.top.Put(c.ctx, &b)
+								cl := classifyPut(err)
+								if cl == "ok" {
+									atomic.AddInt32(&oks[i], 1)
+									break
+								}
+								if cl == "already" {
+									break
+								}
+								if cl == "bad-round" {
+									// either somebody else is behind us (retry) or already past this round (done)
+									l, _ := c.top.Last(c.ctx)
+									if l != nil && l.Round >= b.Round {
+										break
+									}
+									if tries > 200000 {
+										atomic.AddInt32(&bad, 1)
+										break
+									}
+									runtime.Gosched()
+									continue
+								}
+								atomic.AddInt32(&bad, 1)
+								break
+							}
+						}
+					}()
+				}
+				wg.Wait()
+				var okl []string
+				for _, v := range oks {
+					okl = append(okl, strconv.Itoa(int(v)))
+				}
+				return fmt.Sprintf("race oks=%s bad=%d", strings.Join(okl, ","), bad)
 			case "last":
 				return showBeacon(c.top.Last(c.ctx))
 			case "scan":
